@@ -100,6 +100,14 @@ def build_harness():
         except OSError:
             pass
         rc, out = run(["go", "build", "-tags", "verif", "-o", HK, "./cmd/hkharness"], cwd=HARNESS, env=goenv(), timeout=900)
+        if rc == 0:
+            # the product itself (no build tag): its command line is one of the front ends that are exercised (config fmt)
+            rc2, out2 = run(["go", "build", "-o", os.path.join(BUILD, "hookaido"), "./cmd/hookaido"], cwd=REPO, env=goenv(), timeout=900)
+            if rc2 != 0:
+                try:
+                    os.remove(os.path.join(BUILD, "hookaido"))
+                except OSError:
+                    pass
         return rc == 0, out
 
 
